@@ -77,8 +77,7 @@ theorem built_packet_serializes_all (os : List Wire.AnyObj) (hs : Wire.ChainAll.
 
 /-- **icmp6_typed_codecs** — all 24 typed ICMPv6 option setters against their getters, for every representable argument
     (`Repr*` predicates of `Wire/Icmp/ThCodec6.lean`; lists of any length, any octets, any padding 0 … 7) -/
-set_option linter.defProp false in
-def icmp6_typed_codecs := @Wire.Icmp.icmp6_typed_codecs_inverse
+theorem icmp6_typed_codecs : type_of% @Wire.Icmp.icmp6_typed_codecs_inverse := Wire.Icmp.icmp6_typed_codecs_inverse
 
 /-- the DNS search list codec (the codec of seeded/C04e) on its own -/
 theorem icmp6_dns_search_list_codec (lt : Nat) (dss : List (List Bytes)) (h : Wire.Icmp.ReprDnsSearch lt dss) :
